@@ -316,6 +316,8 @@ def run(prog, ctx):
     C.import_rules(res, prog, ctx, "C18.A", "C02", ("C02.A4", "C02.S"), "aux entries only for exception registers", 3)
     # HLL union: a source is adopted wholesale only at the union's own lg_k (C03.L); adopting a larger one keeps its bigger tables
     C.import_rules(res, prog, ctx, "C18.L", "C03", ("C03.L",), "wholesale adoption only at equal lg_k", 1)
+    # theta: k entries after trim -- the trim condition by value over (retained, allocated, k, theta) and the public trim handing over (C04.T)
+    C.import_rules(res, prog, ctx, "C18.T", "C04", ("C04.T",), "theta retains k entries after trim", 0)
     res.explanation = ("who-may-grow over all %d functions of the crate for the six fixed-size buffers; capacity-rule guards and formulas for HLL "
                        "list/set/aux promotion, t-digest buffering and capacity; HLL image-size formulas evaluated over lg_k 4..=21" % len(allf))
     res.not_decided = "CPC's empirical 99.9% size bound"
